@@ -325,6 +325,38 @@ func TestVerifC18Codecs(t *testing.T) {
 					}
 				}
 				reused[c.Name()+"/"+typ] = proto.Clone(m)
+				// marshal, change a nested field, marshal again with each entry point: no stale cached sizes
+				nested := &conformancev1.ClientResponseResult{Payloads: []*conformancev1.ConformancePayload{{Data: []byte("short"), RequestInfo: &conformancev1.ConformancePayload_RequestInfo{RequestHeaders: []*conformancev1.Header{{Name: "h", Value: []string{"v"}}}}}}}
+				for round, first := range []string{"Marshal", "MarshalAppend", "MarshalStable"} {
+					switch first {
+					case "Marshal":
+						_, _ = c.Marshal(nested)
+					case "MarshalAppend":
+						_, _ = c.MarshalAppend(nil, nested)
+					default:
+						_, _ = c.MarshalStable(nested)
+					}
+					nested.Payloads[0].Data = append(nested.Payloads[0].Data, bytes.Repeat([]byte{byte('a' + round)}, 40+i%200)...)
+					nested.Payloads[0].RequestInfo.RequestHeaders[0].Value = append(nested.Payloads[0].RequestInfo.RequestHeaders[0].Value, "another value")
+					for _, second := range []string{"MarshalStable", "Marshal", "MarshalAppend"} {
+						var enc []byte
+						var err error
+						switch second {
+						case "Marshal":
+							enc, err = c.Marshal(nested)
+						case "MarshalAppend":
+							enc, err = c.MarshalAppend(nil, nested)
+						default:
+							enc, err = c.MarshalStable(nested)
+						}
+						back := &conformancev1.ClientResponseResult{}
+						if err != nil || c.Unmarshal(enc, back) != nil || !proto.Equal(back, nested) {
+							rep.Violation("conv/codec/"+c.Name()+"/marshal-after-mutation", fmt.Sprintf("%s after %s and a change to a nested field: error %v / does not decode to the changed message", second, first, err), w)
+						} else {
+							rep.Count("marshal_after_mutation_ok", 1)
+						}
+					}
+				}
 			})
 			if p != nil {
 				rep.Violation("conv/codec/"+c.Name()+"/panic/"+p.Site, p.Value, w)
